@@ -215,7 +215,11 @@ static void run_qb (std::vector<std::string> &tok, std::string &out) {
   int blocked_before = np - finished.load ();
   int expect = np + (int) cap;
   if (mode >= 1) { async_queue_clear (q); expect = np; }
-  if (mode == 2) { int msg[2] = { -2, 0 }; async_queue_enqueue (q, msg, sizeof msg); expect++; }
+  if (mode == 2) {
+    // one more writer arriving after the clear (its own thread: the consumer itself must never block in enqueue)
+    th.emplace_back ([&] () { int msg[2] = { -2, 0 }; async_queue_enqueue (q, msg, sizeof msg); finished++; });
+    np++; expect++;
+  }
   int got = 0;
   long long deadline = now_us () + 3000000;
   while (now_us () < deadline && (got < expect || finished.load () < np)) {
